@@ -24,6 +24,11 @@ from vx import axcheck as _ax
 EXTRA_ENGINES = {'C19': [('kani', _kani.engine)]}
 for _p in _ax.AXIOMS:
     EXTRA_ENGINES.setdefault(_p, []).append(('axcheck', _ax.engine_for(_p)))
+# bounded stand-in: enumerated inputs through the real binary (labelled bounded in the evidence, never counted as proved)
+from vx import bounded as _bd
+from vx import cases as _cs
+for _p in _cs.CASES:
+    EXTRA_ENGINES.setdefault(_p, []).append(('bounded', _bd.engine(_p)))
 HOOK_COMMITS = ['431763a']
 
 META = {
